@@ -212,6 +212,7 @@ HINTS = st.fixed_dictionaries({
     "ints": st.sampled_from(["py", "np"]),
     "scalar": st.sampled_from(["py", "np32"]),
     "stray_links": st.sampled_from([False, False, True]),
+    "nan": st.sampled_from(["pos", "pos", "neg", "payload", "mixed"]),
 })
 PLAIN_HINTS = {"dtype": "<f4", "order": "C", "ints": "py", "scalar": "py"}
 
@@ -464,9 +465,12 @@ NAN32 = 0x7FC00000
 def frames_to_array(frames, per_frame, hints):
     """(n, per_frame) [or (n,)] array with NaN rows for missing frames"""
     flat = []
-    for f in frames:
+    kind = (hints or {}).get("nan", "pos")
+    for i, f in enumerate(frames):
         if f is None:
-            flat.extend([NAN32] * per_frame)
+            # a missing frame is ANY NaN: the default quiet NaN, one with the sign bit set (what -nan / inf-inf give), one with payload bits
+            nan = {"pos": NAN32, "neg": 0xFFC00000, "payload": 0x7FC12345, "mixed": (NAN32, 0xFFC00000, 0xFFFFFFFF, 0x7FC00001)[i % 4]}[kind]
+            flat.extend([nan] * per_frame)
         elif per_frame == 1:
             flat.append(f)
         else:
@@ -536,6 +540,26 @@ def _b_emg(s, h):
     return e
 
 
+def _present(arr, dt):
+    """arr given in another dtype if (and only if) every value survives the change exactly; else arr itself"""
+    if not dt:
+        return arr
+    try:
+        with np.errstate(all="ignore"):
+            c = arr.astype(dt)
+            back = c.astype(arr.dtype)
+    except (ValueError, TypeError):
+        return arr
+    if np.dtype(dt).kind in "iu" and np.isnan(arr.astype("<f8")).any():
+        return arr
+    return c if np.array_equal(back, arr, equal_nan=True) else arr
+
+
+def _coupled(h, i):
+    c = h.get("coupled")
+    return c[i] if c else None
+
+
 def _b_force3D(s, h):
     from basictdf.tdfForce3D import ForceTorque3D, ForceTorque3DBlockFormat, ForceTorqueTrack
 
@@ -543,7 +567,8 @@ def _b_force3D(s, h):
                       arr32(s["trans"], (3,), h), scal32(s["startTime"], h), ForceTorque3DBlockFormat(s["format"]))
     for t in s["tracks"]:
         a = frames_to_array(t["frames"], 9, h)
-        f.add_track(ForceTorqueTrack(t["label"], a[:, 0:3].copy(), a[:, 3:6].copy(), a[:, 6:9].copy()))
+        f.add_track(ForceTorqueTrack(t["label"], _present(a[:, 0:3].copy(), _coupled(h, 0)), _present(a[:, 3:6].copy(), _coupled(h, 1)),
+                                     _present(a[:, 6:9].copy(), _coupled(h, 2))))
     return f
 
 
@@ -553,7 +578,7 @@ def _b_platData(s, h):
     b = ForcePlatformsDataBlock(scal32(s["startTime"], h), ival(s["frequency"], h), ival(s["nFrames"], h))
     for p in s["plats"]:
         a = frames_to_array(p["frames"], 6, h)
-        plat = ForcePlatformData(a[:, 0:2].copy(), a[:, 2:5].copy(), a[:, 5].copy())
+        plat = ForcePlatformData(_present(a[:, 0:2].copy(), _coupled(h, 0)), _present(a[:, 2:5].copy(), _coupled(h, 1)), _present(a[:, 5].copy(), _coupled(h, 2)))
         if s.get("_chmode") == "auto":
             b.add_platform(plat)
         else:
@@ -751,14 +776,39 @@ def lib_write(block):
     return b.getvalue()
 
 
-def lib_decode(t, fmt, data, tail=b""):
-    """decode with the library from a stream that carries `tail` after the block;
-    returns (block, bytes consumed)"""
-    import io
+DECODE_HEADS = (b"", b"\xa5" * 7, b"\x5a" * 4096, b"")
 
-    st_ = io.BytesIO(bytes(data) + bytes(tail))
+
+def lib_decode(t, fmt, data, tail=b"", head=None):
+    """decode with the library from a stream that carries `head` before and `tail` after the block (a block is never
+    at position 0 of a real file); returns (block, bytes consumed). Unless given, the head is a pure function of the
+    block bytes: empty, 7 or 4096 bytes."""
+    import io
+    import zlib
+
+    data = bytes(data)
+    if head is None:
+        head = DECODE_HEADS[zlib.crc32(data) % len(DECODE_HEADS)]
+    st_ = io.BytesIO(head + data + bytes(tail))
+    st_.seek(len(head))
     blk = lib_class(t)._build(st_, fmt)
-    return blk, st_.tell()
+    return blk, st_.tell() - len(head)
+
+
+def invalid_variant(spec):
+    """the same block with one label that cannot be encoded (too long), or None if the type carries no text"""
+    import copy
+
+    s2 = copy.deepcopy(spec)
+    for key in ("tracks", "signals", "events", "plats", "channels"):
+        its = s2.get(key)
+        if its:
+            it = its[len(its) // 2]
+            for lk in ("label", "name"):
+                if lk in it:
+                    it[lk] = "x" * 300
+                    return s2
+    return None
 
 
 def first_diff(a, b, path=""):
